@@ -249,6 +249,8 @@ func (ex *Exec) inlineCall(caller *Frame, st *State, fn *ssa.Function, args []Va
 
 // opaqueCall: module function without contract that is not inlined.
 func (ex *Exec) opaqueCall(fr *Frame, st *State, fn *ssa.Function, args []Val, pos token.Pos) Val {
+	ex.calleeHavoc++
+	defer func() { ex.calleeHavoc-- }()
 	keys, top := ex.modSet(fn)
 	ex.note("call of %s without contract: effects over-approximated by its syntactic write set", funcKey(fn))
 	if ex.assignsActive() && (top || len(keys) > 0) {
@@ -432,7 +434,20 @@ func (ex *Exec) invoke(fr *Frame, st *State, cc *ssa.CallCommon, args []Val, res
 	}
 	ex.oblige(fr, st, "nil", "", not(eq(recv.L[0], "0")), pos, "method call on nil interface: "+ex.srcLine(pos))
 	// contract on the interface method itself (preconditions every implementation relies on)
-	if ict := ex.C.Funcs[typeContractKey(cc.Value.Type())+"."+mname]; ict != nil && ex.specMode == 0 {
+	ictAll := ex.C.Funcs[typeContractKey(cc.Value.Type())+"."+mname]
+	if ex.P.Funcs[typeContractKey(cc.Value.Type())+"."+mname] != nil {
+		ictAll = nil
+	}
+	if ictAll == nil {
+		// the method may be declared by an embedded interface (storage.Storage embeds storage.RouterStorage)
+		if sig, ok := cc.Method.Type().(*types.Signature); ok && sig.Recv() != nil {
+			k := typeContractKey(sig.Recv().Type()) + "." + mname
+			if ex.P.Funcs[k] == nil {
+				ictAll = ex.C.Funcs[k]
+			}
+		}
+	}
+	if ict := ictAll; ict != nil && ex.specMode == 0 {
 		vars := map[string]Val{"recv": recv}
 		for i, a := range args {
 			vars[fmt.Sprintf("arg%d", i)] = a
@@ -476,13 +491,38 @@ func (ex *Exec) invoke(fr *Frame, st *State, cc *ssa.CallCommon, args []Val, res
 		rv := ex.unbox(RT, recv.L[1])
 		rv.T = RT
 		r := ex.callFunction(fr, st, fn, append([]Val{rv}, args...), nil, nil, pos)
+		if ictAll != nil && ex.specMode == 0 && len(ictAll.Ensures) > 0 {
+			ex.assumeIfaceEnsures(fr, st, ictAll, recv, args, r)
+		}
 		if res != nil {
 			ex.setResult(fr, res, r)
 		}
 		return
 	}
 	// unknown or several implementations
-	if len(mod) == 0 {
+	ex.calleeHavoc++
+	defer func() { ex.calleeHavoc-- }()
+	if ictAll != nil && ictAll.HasMod && len(mod) > 0 {
+		// the frame declared on the interface method (checked on every implementation)
+		vars := map[string]Val{"recv": recv}
+		for i, a := range args {
+			vars[fmt.Sprintf("arg%d", i)] = a
+		}
+		en := ex.newEnv(fr, st, ex.preState, vars)
+		var locs []modLoc
+		func() {
+			defer func() {
+				if r := recover(); r != nil {
+					ex.errors = append(ex.errors, fmt.Sprintf("interface modifies of %s: %v", full, r))
+				}
+			}()
+			for _, m := range ictAll.Modifies {
+				locs = append(locs, ex.modLocs(en, m)...)
+			}
+		}()
+		ex.callAssigns(st, locs)
+		ex.havocLocs(st, locs)
+	} else if len(mod) == 0 {
 		ex.note("interface call %s: external implementation (arguments' memory havoced)", full)
 		ex.havocArgs(fr, st, args, cc.Args)
 	} else {
@@ -505,8 +545,16 @@ func (ex *Exec) invoke(fr *Frame, st *State, cc *ssa.CallCommon, args []Val, res
 		}
 	}
 	st.allocCtr = ex.bumpAlloc(st)
+	var r Val
 	if res != nil {
-		r := ex.freshVal("inv."+mname, res.Type())
+		r = ex.freshVal("inv."+mname, res.Type())
+		ex.assumeResultFacts(fr, st, nil, r)
+	}
+	if ictAll != nil && ex.specMode == 0 && len(ictAll.Ensures) > 0 {
+		ex.assumeIfaceEnsures(fr, st, ictAll, recv, args, r)
+	}
+	ex.reassumeRootInvs(st)
+	if res != nil {
 		ex.setResult(fr, res, r)
 	}
 }
